@@ -412,9 +412,9 @@ def strategy(spec, ctx):
 def shards(tier):
     quick = tier == 'quick'
     out = []
-    for mode, n, ex in (('api', 8, 500), ('tree', 5, 600), ('cls', 3, 400)):
+    for mode, n, ex in (('api', 8, 1000), ('tree', 5, 1200), ('cls', 3, 600)):
         for _ in range(n if quick else n * 4):
-            out.append({'mode': mode, 'examples': ex if quick else ex * 5})
+            out.append({'mode': mode, 'examples': ex if quick else ex * 6})
     return out
 
 
